@@ -29,6 +29,8 @@ const char *C10_CLASSES[] = {"layout-dependence", "not-reproducible", nullptr};
 const char *C09_CLASSES[] = {"restart-divergence", "dump-differs",
                              "roundtrip-bytes", "restart-failed",
                              "stop-not-honoured", nullptr};
+const char *C12_CLASSES[] = {"crash", "abort", "sanitizer", "hang", "bad-exit",
+                             "missing-output", nullptr};
 const char *C04_CLASSES[] = {"mass-not-conserved", "momentum-not-conserved",
                              "energy-not-conserved", "unphysical-state",
                              nullptr};
@@ -171,6 +173,23 @@ public:
     }
   }
 
+  // directed cases: one instance of every known finding, so that the
+  // KNOWN-FINDING line is printed as long as the finding is present
+  std::vector< Json > directed(const std::string &tier) {
+    std::vector< Json > v;
+    if (prop == "C12") {
+      const char *root = getenv("VERIF_ROOT");
+      const std::string path =
+          std::string(root ? root : "/verif") + "/directed/C12-cooling-nan.json";
+      try {
+        v.push_back(Json::parse_file(path));
+      } catch (...) {
+      }
+    }
+    (void)tier;
+    return v;
+  }
+
   Json generate(uint64_t run_seed, const std::string &tier, uint64_t index) {
     Rng r(run_seed);
     Cfg c;
@@ -271,6 +290,22 @@ public:
         }
       }
     }
+    if (prop == "C12") {
+      // widen over optional components and run modes
+      c.radiation = r.chance(0.4);
+      c.packets = (long)r.range(50, 600);
+      c.mask = r.chance(0.2);
+      c.turbulence = r.chance(0.2);
+      c.live_output = r.chance(0.4);
+      c.live_mask = (int)r.below(16);
+      c.gravity = r.chance(0.2);
+      c.cooling = r.chance(0.2) && c.gamma > 1.01;
+      c.writer = r.chance(0.3) ? 1 : 0;
+      c.dump_every_step = r.chance(0.5);
+      c.restart_midway = c.dump_every_step && r.chance(0.6) && c.steps >= 2;
+      c.backups = (int)r.range(0, 3);
+      c.threads = std::min(c.threads, 6);
+    }
     c.seed = (int)r.range(1, 100000);
     c.sched = Sched::draw(r, 3000000ull);
     c.sched.total_cap = 80000000ull;
@@ -286,6 +321,7 @@ public:
       return execute_c09(c, cj);
     const std::string dir = scratch_dir();
     const std::string pf = c.write_files(dir);
+    scrub_memory(0xA5);
     Ledger L;
     L.lay.init(c);
     L.want_reference = (prop == "C10");
@@ -295,8 +331,22 @@ public:
     bool finished = guarded([&]() {
       std::vector< std::string > extra;
       extra.push_back("--number-of-steps");
-      extra.push_back(std::to_string(c.steps));
-      rc = run_rhd(pf, c.threads, extra);
+      if (c.restart_midway) {
+        // stop after the first step, then restart from the dump
+        extra.push_back("1");
+        rc = run_rhd(pf, c.threads, extra);
+        if (rc == 0) {
+          std::vector< std::string > extra2;
+          extra2.push_back("--restart");
+          extra2.push_back(dir);
+          extra2.push_back("--number-of-steps");
+          extra2.push_back(std::to_string(c.steps));
+          rc = run_rhd(pf, c.threads, extra2);
+        }
+      } else {
+        extra.push_back(std::to_string(c.steps));
+        rc = run_rhd(pf, c.threads, extra);
+      }
     });
     RunStats rs = run_end();
 
@@ -327,6 +377,7 @@ public:
       const char **mine = prop == "C10"   ? C10_CLASSES
                           : prop == "C04" ? C04_CLASSES
                           : prop == "C09" ? C09_CLASSES
+                          : prop == "C12" ? C12_CLASSES
                                           : C07_CLASSES;
       if (in_list(mine, vclass)) {
         out.vclass = vclass;
@@ -444,6 +495,15 @@ public:
              "state (fixed time step); tolerance 1e-11 of the local scale "
              "(largest magnitude over the cell and its six neighbours, at "
              "least 1e-3 of the grid maximum)";
+    else if (prop == "C12")
+      what = "sanitizer part of C12 (task-based RHD mode): runs built with "
+             "AddressSanitizer + UndefinedBehaviorSanitizer, widened over "
+             "radiation on/off (Verner atomic data), radiative cooling, "
+             "external gravity, hydro mask, turbulence forcing, live output "
+             "(all 16 combinations of its four calculators), Gadget / AsciiFile "
+             "writer, restart dumps every step and a stop + restart after the "
+             "first step; stack and heap pre-filled with 0xA5; oracle: normal "
+             "return, no sanitizer report / signal / abort";
     else if (prop == "C09")
       what = "restart experiments, one simulated thread: an uninterrupted run "
              "A with a dump after every step and a per-step digest (FNV-1a "
